@@ -5,6 +5,7 @@ import (
 	"go/ast"
 	"go/token"
 	"go/types"
+	"regexp"
 	"sort"
 	"strings"
 
@@ -1594,5 +1595,74 @@ func c05r11(rc *core.RC) {
 	}
 	if n < 2 {
 		rc.Unknown("decoder/sub-text-decodes", token.NoPos, "found %d nested Decode calls from cursor 0 (confirmed: wrappedStringDecoder.Decode and DecodeStream)", n)
+	}
+}
+
+// ---- C05.R12 the number grammar, folded ----
+
+// validNumber (decoder and encoder copies) is a pure scanner over the bytes of a token: an index, comparisons,
+// three loops. It is folded for every string over the alphabet 0 1 9 - + . e E x up to a length bound and compared
+// with the number production of RFC 8259: -?(0|[1-9][0-9]*)(\.[0-9]+)?([eE][+-]?[0-9]+)?. C05.R6 decides that the
+// two copies are the same code; this rule decides that the code is the grammar.
+func c05r12(rc *core.RC) {
+	p := rc.P
+	ref := regexp.MustCompile(`^-?(0|[1-9][0-9]*)(\.[0-9]+)?([eE][+-]?[0-9]+)?$`)
+	alphabet := []byte("019-+.eEx")
+	maxLen := 5
+	if rc.Tier == "thorough" {
+		maxLen = 6
+	}
+	n := 0
+	for _, short := range []string{"decoder", "encoder"} {
+		fd := p.Func(short, "validNumber")
+		key := short + ".validNumber/is-the-RFC-8259-number-grammar"
+		if fd == nil || fd.Body == nil || fd.Type.Params.NumFields() != 1 {
+			rc.Unknown(key, token.NoPos, "not found")
+			continue
+		}
+		n++
+		rc.Touch(short + ".validNumber")
+		info := p.Info(fd)
+		arg := info.Defs[fd.Type.Params.List[0].Names[0]]
+		bp := &core.BytePred{P: p, Strings: map[types.Object][]byte{}}
+		var wrongAccept, wrongReject []string
+		count := 0
+		var gen func(prefix []byte)
+		undecided := ""
+		gen = func(prefix []byte) {
+			if undecided != "" {
+				return
+			}
+			bp.Steps = 0
+			bp.Strings[arg] = prefix
+			got, isBool, done, ok := bp.ExecList(info, fd.Body.List, core.BindAll(nil))
+			if !ok || !done || !isBool {
+				undecided = string(prefix)
+				return
+			}
+			count++
+			want := ref.Match(prefix)
+			if got && !want && len(wrongAccept) < 8 {
+				wrongAccept = append(wrongAccept, string(prefix))
+			}
+			if !got && want && len(wrongReject) < 8 {
+				wrongReject = append(wrongReject, string(prefix))
+			}
+			if len(prefix) == maxLen {
+				return
+			}
+			for _, c := range alphabet {
+				gen(append(append([]byte{}, prefix...), c))
+			}
+		}
+		gen(nil)
+		if undecided != "" {
+			rc.Unknown(key, fd.Pos(), "validNumber could not be folded for %q (a construct outside assignments, if, for, switch and comparisons)", undecided)
+			continue
+		}
+		rc.Check(len(wrongAccept) == 0 && len(wrongReject) == 0, key, fd.Pos(), "%s.validNumber, folded for the %d strings over 019-+.eEx of length up to %d, accepts exactly the numbers of RFC 8259; wrongly accepted: %q, wrongly rejected: %q", short, count, maxLen, wrongAccept, wrongReject)
+	}
+	if n < 2 {
+		rc.Unknown("validNumber/copies", token.NoPos, "found %d of the two copies of validNumber", n)
 	}
 }
